@@ -65,3 +65,83 @@ def length_is_boolean(chk, dirs, rule='length-is-truth-value'):
     if n == 0:
         raise AnalysisBroken('%s: no call examined under %s' % (rule, dirs))
     chk.ok(rule, 'no memory-routine length under %s is a truth value (%d calls; positive control matched)' % (', '.join(dirs), n), dirs[0], nontrivial=False)
+
+
+def _limb_splits(F):
+    """stores, in one block, to consecutive constant offsets of one base, of (X >> k*w) [& mask] with k = 0, 1, 2, ...:
+    returns the groups whose shift amounts form the progression but whose roots X differ"""
+    def pat(o, depth=0):
+        """-> (root operand, shift, mask or None) for root, root & m, (root >> s), (root >> s) & m (through zext/trunc)"""
+        if o['k'] != 'i' or depth > 4:
+            return (o, 0, None)
+        i = F.insts[o['v']]
+        if i['op'] in ('zext', 'sext', 'trunc'):
+            return pat(i['ops'][0], depth + 1)
+        if i['op'] == 'and' and any(q['k'] == 'c' for q in i['ops']):
+            r, s0, m0 = pat(next(q for q in i['ops'] if q['k'] != 'c'), depth + 1)
+            return (r, s0, next(q for q in i['ops'] if q['k'] == 'c')['v'])
+        if i['op'] == 'lshr' and i['ops'][1]['k'] == 'c' and i['ops'][1]['v'] is not None:
+            r, s0, m0 = pat(i['ops'][0], depth + 1)
+            return (r, s0 + i['ops'][1]['v'], m0)
+        return (o, 0, None)
+    bad = []
+    for b in F.blocks:
+        groups = {}
+        for i in b['insts']:
+            if i['op'] != 'store':
+                continue
+            base, off = F.addr_of(i['ops'][1])
+            if off is None:
+                continue
+            v = i['ops'][0]
+            if v['k'] not in ('i', 'a'):
+                continue
+            root, sh, mk = pat(v)
+            if root['k'] == 'c':
+                continue
+            groups.setdefault(repr(sorted(base.items())), []).append((off, i.get('size', 1), root, sh, i, mk))
+        for g in groups.values():
+            g.sort(key=lambda t: t[0])
+            # maximal runs of consecutive elements
+            run = [g[0]]
+            runs = []
+            for t in g[1:]:
+                if t[0] == run[-1][0] + run[-1][1] and t[1] == run[-1][1]:
+                    run.append(t)
+                else:
+                    runs.append(run)
+                    run = [t]
+            runs.append(run)
+            for r in runs:
+                if len(r) < 3:
+                    continue
+                shifts = [t[3] for t in r]
+                d = shifts[1] - shifts[0]
+                if d <= 0 or any(shifts[k + 1] - shifts[k] != d for k in range(len(shifts) - 1)) or shifts[0] != 0:
+                    continue
+                # the limbs partition one value: every masked limb keeps exactly d bits
+                if any(t[5] is not None and t[5] != (1 << d) - 1 for t in r) or not any(t[5] is not None for t in r):
+                    continue
+                roots = set(repr(sorted(t[2].items())) for t in r)
+                if len(roots) > 1:
+                    bad.append(r[-1][4])
+    return bad
+
+
+def limb_split_consistent(chk, dirs, rule='limb-split-single-source'):
+    """a value split into consecutive limbs (x & m, (x >> w) & m, x >> 2w, ...) must take every limb from the same variable"""
+    C = _control()
+    if not _limb_splits(C.func('lintbad_limb_split')):
+        raise AnalysisBroken('lint positive control lintbad_limb_split was not matched')
+    P = wmw.program()
+    n = 0
+    for (un, fn), F in sorted(P.static.items()):
+        f = F.file().replace(build.REPO + '/', '')
+        if not any(f.startswith(d) for d in dirs):
+            continue
+        n += 1
+        for i in _limb_splits(F):
+            chk.violation(rule, '%s: limbs of one value come from different variables' % fn, F.where(i),
+                          'a run of stores x & m, (x >> w) & m, ... ends with a limb taken from another variable (copy/paste slip): the encoded integer is wrong '
+                          'whenever the two variables differ in those bits', key='%s %s %s' % (rule, fn, i.get('line')))
+    chk.ok(rule, 'every limb split under %s takes all limbs from one variable (%d functions; positive control matched)' % (', '.join(dirs), n), dirs[0], nontrivial=False)
